@@ -63,6 +63,12 @@ pub fn literals(th: bool) -> Vec<String> {
             }
         }
     }}
+    // exponents next to the points where a truncating cast wraps (u8, u16, i32, u32, u64): a wrapped exponent looks small
+    for sign in ["", "-"] { for body in ["1", "7.25", "0.5", "0", "123456789012345678"] {
+        for e in ["e256", "e257", "e-256", "e65536", "e2147483648", "e4294967296", "e4294967297", "e4294967300", "e4294967334", "e-4294967296", "e-4294967300", "e18446744073709551616", "e18446744073709551620", "e-18446744073709551616"] {
+            out.insert(format!("{}{}{}", sign, body, e));
+        }
+    }}
     // lexer-valid, parser-invalid
     for s in ["1_000", "0x1F", "0b11", "0o7", "1_0.5", "-0x10"] { out.insert(s.to_string()); }
     out.into_iter().collect()
